@@ -54,7 +54,7 @@ fn build(rng: &mut Rng, shape: u32, sizes_max: usize) -> Built {
         h.generator = rng.u32();
         m.header = Some(h);
     }
-    let mut fill = |v: &mut Vec<dr::Instruction>, on: bool, rng: &mut Rng, globals: &mut Vec<u32>, marker: &mut u32| {
+    let fill = |v: &mut Vec<dr::Instruction>, on: bool, rng: &mut Rng, globals: &mut Vec<u32>, marker: &mut u32| {
         if on {
             for _ in 0..rng.range(1, sizes_max) {
                 let (i, k) = mk(rng, marker);
